@@ -199,12 +199,15 @@ class C13(Property):
         ill_a = [None, None, None, "undeclared", "arg_after_att", "syntax", "badname"]
         for i in range(k):
             n, atts = gen.random_framework(rng, 7)
-            if i % 40 == 11:
-                # large files: 100-1200 arguments (three- and four-digit indices, many lines), a hub with many attacks
+            if i % 40 in (11, 30):
+                # large files (both formats): 100-1200 arguments (three- and four-digit indices, many lines), a hub with many
+                # incoming and 17-60 outgoing attacks, its self-attack declared after them, a few more self-attacks at the end
                 n = rng.randint(100, 1200)
                 atts = [(rng.randrange(n), rng.randrange(n)) for _ in range(rng.randint(70, 400))]
                 hub = rng.randrange(n)
                 atts += [(rng.randrange(n), hub) for _ in range(rng.randint(20, 80))]
+                atts += [(hub, x) for x in rng.sample(range(n), rng.randint(17, 60))]
+                atts += [(hub, hub)] + [(x, x) for x in rng.sample(range(n), 3)]
             if rng.random() < 0.2 and atts:
                 atts = atts + [rng.choice(atts)]
             fmt = "iccma" if i % 2 == 0 else "apx"
